@@ -543,7 +543,7 @@ func (e *Exec) frameObligations(final *State, c *Contract, sc *clauseScope) {
 				whole = true
 			}
 		}
-		if whole || len(byKey["*"]) > 0 || e.P.Memo[k] != nil {
+		if whole || len(byKey["*"]) > 0 || e.P.Memo[k] != nil || e.privateElsewhere(k) {
 			continue
 		}
 		now := e.heapGet(final, k)
@@ -724,4 +724,12 @@ func (e *Exec) replayPlan(fi *FuncInfo, recv Term, args []Term) *ReplayPlan {
 		pl.results0 = append(pl.results0, sig.Results().At(i).Type())
 	}
 	return pl
+}
+
+
+// privateElsewhere: k belongs to the encapsulated representation of another package (`//@ private`): the verified
+// function can neither name nor touch it, so it has no frame obligation for it.
+func (e *Exec) privateElsewhere(k string) bool {
+	owner := e.P.Private[frameLabel(k)]
+	return owner != "" && e.Fn != nil && e.Fn.Pkg != nil && owner != e.Fn.Pkg.PkgPath
 }
